@@ -154,6 +154,16 @@ def moveLoop : Nat → List (List (Vec α)) → List Bool → Option (List (Vec 
   | k + 1, t :: ts, c :: cs => if c then some t else moveLoop k ts cs
   | _ + 1, _, _ => none
 
+/-- `BaseMove.__init__`: `self.operation = operation if operation is not None else self.default_operation` -/
+def chosenOp {β : Type} (given : Option β) (dflt : β) : β := given.getD dflt
+
+/-- the line before the repair, `operation or self.default_operation`: Python truthiness — an object with `__len__`
+    (`CompositeOperation`) is falsy when its length is 0; `len g = none` for operations without `__len__` -/
+def chosenOpPinned {β : Type} (len : β → Option Nat) (given : Option β) (dflt : β) : β :=
+  match given with
+  | none => dflt
+  | some g => if len g = some 0 then dflt else g
+
 /-! ## cell.py -/
 
 def b2n (b : Bool) : α := if b then Num.one else Num.zero
